@@ -155,7 +155,6 @@ func (p *pageT) class() string {
 	if p == nil {
 		return "-"
 	}
-	p.refresh()
 	if !p.mapped {
 		return "unmapped"
 	}
@@ -544,7 +543,6 @@ func pageStr(p *pageT) string {
 	if p == nil {
 		return "-"
 	}
-	p.refresh()
 	m, l := "-", "-"
 	if p.mapped {
 		m = "M"
@@ -647,6 +645,10 @@ func (w *world) exec(line string) {
 			pg := sh.last
 			if s != nil && s.page != nil {
 				pg = s.page
+			}
+			if f[0] == "new" || f[0] == "rand" || f[0] == "close" {
+				// the memguard library changes protection / mapping without going through the interface
+				pg.refresh()
 			}
 			o.pg = pageStr(pg)
 			sh.mu.Unlock()
